@@ -219,7 +219,7 @@ theorem applyAll_frame (h : Heap K) (es : List (Effect K)) : Frame (writeSet es)
   | cons e t ih =>
     intro l c hl hc
     have h1 : e.loc ≠ some l := by
-      intro he; apply hl; simp [writeSet, List.filterMap_cons, he]
+      intro he; apply hl; simp [writeSet, he]
     have h2 : l ∉ writeSet t := by
       intro hm; apply hl
       simp only [writeSet, List.filterMap_cons] at hm ⊢
